@@ -224,10 +224,14 @@ fn vec_case(sink: &mut Sink, id: &str, r: &mut Rng, steps: usize) {
                     let n = 1 + r.below(3);
                     for k in 0..n {
                         let tl = t.len();
-                        match r.below(5) {
+                        match r.below(8) {
                             0 | 1 => t.push_back(Tok::new(v)),
                             2 => t.insert(r.below(tl + 1), Tok::new(v)),
                             3 if tl > 0 => { t.set(r.below(tl), Tok::new(v)); }
+                            4 => t.append((0..r.below(3)).map(|_| Tok::new(v)).collect()),
+                            // clear discards the diffs recorded before it — and the values they carry
+                            5 => t.clear(),
+                            6 => t.truncate(r.below(tl + 1)),
                             _ => { t.pop_front(); }
                         }
                         if k == 0 && r.chance(1, 6) { plain = None; batched = None; chain = None; dyn_tail = None; }
@@ -280,7 +284,7 @@ struct OwningTask<S> { sub: std::sync::Mutex<Option<S>> }
 impl<S: Send> std::task::Wake for OwningTask<S> { fn wake(self: Arc<Self>) {} }
 
 /// W. reference cycle state -> waker -> task -> subscriber -> state (C20: nothing is leaked)
-fn waker_cycle_case(sink: &mut Sink, id: &str, shared: bool, asyncf: bool, write_between: bool, poll_after_close: bool) {
+fn waker_cycle_case(sink: &mut Sink, id: &str, shared: bool, asyncf: bool, write_between: bool, poll_after_close: bool, unwinding: bool) {
     sink.case(id);
     reset_registry();
     {
@@ -289,6 +293,8 @@ fn waker_cycle_case(sink: &mut Sink, id: &str, shared: bool, asyncf: bool, write
             let mut g = task.sub.lock().unwrap();
             let _ = Pin::new(g.as_mut().unwrap()).poll_next(&mut cx);
         }
+        /// the handle goes away — by a plain drop, or dropped by a panic that unwinds through its owner
+        fn gone<H>(h: H, unwinding: bool) { if unwinding { let _ = catch(move || { let _h = h; panic!("unwinding through the owner of the observable") }); } else { drop(h) } }
         fn cycle<S: Stream + Unpin + Send + 'static>(sub: S, write: impl FnOnce(), drop_ob: impl FnOnce(), write_between: bool, poll_after_close: bool) {
             let task = Arc::new(OwningTask { sub: std::sync::Mutex::new(Some(sub)) });
             let waker = Waker::from(task.clone());
@@ -301,13 +307,13 @@ fn waker_cycle_case(sink: &mut Sink, id: &str, shared: bool, asyncf: bool, write
         }
         match (shared, asyncf) {
             (false, false) => { let mut ob = Observable::new(Tok::new(1)); let sub = Observable::subscribe(&ob); let p: *mut Observable<Tok> = &mut ob;
-                cycle(sub, || { Observable::set(unsafe { &mut *p }, Tok::new(2)); }, || drop(unsafe { std::ptr::read(p) }), write_between, poll_after_close); std::mem::forget(ob); }
+                cycle(sub, || { Observable::set(unsafe { &mut *p }, Tok::new(2)); }, || gone(unsafe { std::ptr::read(p) }, unwinding), write_between, poll_after_close); std::mem::forget(ob); }
             (true, false) => { let ob = SharedObservable::new(Tok::new(1)); let sub = ob.subscribe(); let ob2 = ob.clone();
-                cycle(sub, move || { ob2.set(Tok::new(2)); drop(ob2); }, move || drop(ob), write_between, poll_after_close); }
+                cycle(sub, move || { ob2.set(Tok::new(2)); drop(ob2); }, move || gone(ob, unwinding), write_between, poll_after_close); }
             (false, true) => { let mut ob = Observable::new_async(Tok::new(1)); let sub = Observable::subscribe_async(&ob); let p: *mut Observable<Tok, AsyncLock> = &mut ob;
-                cycle(sub, || { now(Observable::set_async(unsafe { &mut *p }, Tok::new(2))); }, || drop(unsafe { std::ptr::read(p) }), write_between, poll_after_close); std::mem::forget(ob); }
+                cycle(sub, || { now(Observable::set_async(unsafe { &mut *p }, Tok::new(2))); }, || gone(unsafe { std::ptr::read(p) }, unwinding), write_between, poll_after_close); std::mem::forget(ob); }
             (true, true) => { let ob = SharedObservable::new_async(Tok::new(1)); let sub = now(ob.subscribe()); let ob2 = ob.clone();
-                cycle(sub, move || { now(ob2.set(Tok::new(2))); drop(ob2); }, move || drop(ob), write_between, poll_after_close); }
+                cycle(sub, move || { now(ob2.set(Tok::new(2))); drop(ob2); }, move || gone(ob, unwinding), write_between, poll_after_close); }
         }
     }
     let live = LIVE.with(|l| l.borrow().len());
@@ -319,12 +325,58 @@ fn waker_cycle_case(sink: &mut Sink, id: &str, shared: bool, asyncf: bool, write
     sink.nontrivial();
 }
 
+/// P. a user closure given to `update` / `update_if` (directly or through a write guard) panics: the value it was working on
+/// is still owned by the observable — dropped neither then nor twice later — and goes away with the last handle
+fn panicking_closure_case(sink: &mut Sink, id: &str, shared: bool, asyncf: bool, which: u8, with_sub: bool) {
+    sink.case(id);
+    reset_registry();
+    let mut early = None;
+    {
+        macro_rules! body { ($ob:ident, $sub:expr, $upd:expr, $updif:expr, $guard:expr) => {{
+            let _s = if with_sub { Some($sub) } else { None };
+            let _ = catch(|| match which { 0 => { $upd; } 1 => { $updif; } _ => { $guard; } });
+            let live = LIVE.with(|l| l.borrow().len());
+            let d = DOUBLE.with(|d| d.get());
+            if live != 1 || d != 0 { early = Some((live, d)); }
+            // everything goes away (a poisoned lock may make the drop itself panic: that is not this property's business)
+            let _ = catch(move || drop($ob));
+        }}; }
+        match (shared, asyncf) {
+            (false, false) => { let mut ob = Observable::new(Tok::new(1));
+                body!(ob, Observable::subscribe(&ob), Observable::update(&mut ob, |t| { t.v += 1; panic!("closure") }), Observable::update_if(&mut ob, |t| { t.v += 1; panic!("closure") }), Observable::update(&mut ob, |_| panic!("closure"))); }
+            (true, false) => { let ob = SharedObservable::new(Tok::new(1));
+                body!(ob, ob.subscribe(), ob.update(|t| { t.v += 1; panic!("closure") }), ob.update_if(|t| { t.v += 1; panic!("closure") }),
+                      { let mut g = ob.write(); eyeball::ObservableWriteGuard::update(&mut g, |t| { t.v += 1; panic!("closure") }) }); }
+            (false, true) => { let mut ob = Observable::new_async(Tok::new(1));
+                body!(ob, Observable::subscribe_async(&ob), now(Observable::update_async(&mut ob, |t| { t.v += 1; panic!("closure") })), now(Observable::update_if_async(&mut ob, |t| { t.v += 1; panic!("closure") })), now(Observable::update_async(&mut ob, |_| panic!("closure")))); }
+            (true, true) => { let ob = SharedObservable::new_async(Tok::new(1));
+                body!(ob, now(ob.subscribe()), now(ob.update(|t| { t.v += 1; panic!("closure") })), now(ob.update_if(|t| { t.v += 1; panic!("closure") })),
+                      { let mut g = now(ob.write()); eyeball::ObservableWriteGuard::update(&mut g, |t| { t.v += 1; panic!("closure") }) }); }
+        }
+    }
+    if let Some((live, d)) = early {
+        sink.oracle_fail("C20", &format!("a closure given to {} panicked: right afterwards {live} value(s) are alive (the observable owns exactly 1) and {d} were dropped twice", ["update", "update_if", "update through a write guard"][which as usize]));
+    }
+    let live = LIVE.with(|l| l.borrow().len());
+    let d = DOUBLE.with(|d| d.get());
+    if live != 0 || d != 0 {
+        sink.oracle_fail("C20", &format!("a closure given to update / update_if panicked; after every handle is gone {live} value(s) are still alive, {d} dropped twice"));
+    }
+    sink.line("lvecend", &format!("live={live} double={d}"));
+    sink.nontrivial();
+}
+
 pub fn run(args: &Args, sink: &mut Sink) {
     let thorough = args.tier == "thorough";
     let mut nw = 0;
-    for shared in [false, true] { for asyncf in [false, true] { for wb in [false, true] { for pa in [false, true] {
+    for shared in [false, true] { for asyncf in [false, true] { for wb in [false, true] { for pa in [false, true] { for unw in [false, true] {
         nw += 1;
-        waker_cycle_case(sink, &format!("W{nw}"), shared, asyncf, wb, pa);
+        waker_cycle_case(sink, &format!("W{nw}"), shared, asyncf, wb, pa, unw);
+    } } } } }
+    let mut np = 0;
+    for shared in [false, true] { for asyncf in [false, true] { for which in 0..3u8 { for with_sub in [false, true] {
+        np += 1;
+        panicking_closure_case(sink, &format!("P{np}"), shared, asyncf, which, with_sub);
     } } } }
     let mut rng = Rng(args.seed ^ 0x0A17);
     // tier `miri`: the same generators under the Miri interpreter (undefined behaviour in the library's `unsafe` blocks,
